@@ -22,16 +22,40 @@ def replay_intersection(feature):
     return {"reproduced": got != [1.0, 3.0], "input": {"first": [1, 2, 3, 5], "second": [1, 1, 3, 4]}, "observed": got, "expected": [1.0, 3.0]}
 
 
+def replay_select(model, feature, m, op):
+    """the solver's row and requested values against the real get_motl_subset / remove_feature (oracle: exact equality of the field)"""
+    row = row_from_model(model)
+    vals = [fval(model.get(f"v{j}"), 1000.0 + j) for j in range(m)]
+    other = dict(row); other[feature] = max(abs(v) for v in vals + [row[feature]]) * 3 + 17.0; other["subtomo_id"] = other.get("subtomo_id", 0.0) + 1.0
+    if feature == "subtomo_id":
+        other["subtomo_id"] = other[feature]
+    rows = [row, other]
+    mo = motl_from_rows(rows)
+    arg = vals if m > 1 else vals[0]
+    if op == "subset":
+        out, e = call(mo.get_motl_subset, arg, feature_id=feature)
+    else:
+        out, e = call(mo.remove_feature, feature, arg)
+        out = mo
+    if e is not None:
+        return {"reproduced": True, "input": {"rows": rows, "values": vals}, "observed": f"raised {type(e).__name__}: {e}"}
+    got = sorted(_rows(out.df))
+    want = sorted(_rows(pd.DataFrame([r for r in rows if (r[feature] in vals) == (op == "subset")], columns=MOTL_COLS)))
+    return {"reproduced": got != want, "input": {"feature": feature, "values": vals, "field_values": [r[feature] for r in rows]},
+            "observed": {"rows": len(got)}, "expected": {"rows": len(want)}}
+
+
 def _rows(df):
     return [tuple(float(v) for v in r) for r in df[MOTL_COLS].values]
 
 
-def _gen_list(rng, n):
+def _gen_list(rng, n, big=0.0):
+    """big: base added to particle / object numbers (large data sets: neighbouring numbers differ by a relative 1e-6)"""
     rows = random_motl_rows(rng, n, n_tomos=3, big_angles=False)
     ids = rng.integers(1, max(2, n), size=n) if rng.random() < 0.4 else rng.permutation(np.arange(1, n + 1))
     for r, i in zip(rows, ids):
-        r["subtomo_id"] = float(i)
-        r["object_id"] = float(rng.integers(1, 6))
+        r["subtomo_id"] = float(i) + big
+        r["object_id"] = float(rng.integers(1, 6)) + big
         r["class"] = float(rng.integers(1, 4))
         r["score"] = float(np.round(rng.random(), 3))
     return rows
@@ -41,6 +65,7 @@ def gen_cases(seed, n_cases, max_ops=6):
     rng = np.random.default_rng(seed + 808)
     for ci in range(n_cases):
         n = int(rng.choice([0, 1, 2, 200])) if ci % 11 == 0 else int(rng.integers(1, 40))
+        big = float(rng.choice([100000.0, 2500000.0])) if ci % 4 == 3 else 0.0
         ops = []
         for _ in range(int(rng.integers(1, max_ops + 1))):
             op = str(rng.choice(OPS))
@@ -48,13 +73,13 @@ def gen_cases(seed, n_cases, max_ops=6):
             if op in ("subset", "remove"):
                 f = str(rng.choice(["tomo_id", "object_id", "class", "subtomo_id"]))
                 k = int(rng.integers(1, 4))
-                arg = {"feature": f, "values": [float(v) for v in rng.choice(np.arange(0, 7), size=k, replace=False)]}
+                arg = {"feature": f, "values": [float(v) + (big if f in ("object_id", "subtomo_id") else 0.0) for v in rng.choice(np.arange(0, 7), size=k, replace=False)]}
             elif op == "split":
                 arg = {"feature": str(rng.choice(["tomo_id", "object_id", "class"])), "pick": int(rng.integers(0, 5))}
             elif op in ("intersection", "merge_renumber", "merge_dropdup"):
-                arg = {"other": _gen_list(rng, int(rng.integers(0, 25))), "feature": str(rng.choice(["subtomo_id", "subtomo_id", "tomo_id"])), "k3": bool(rng.random() < 0.3)}
+                arg = {"other": _gen_list(rng, int(rng.integers(0, 25)), big), "feature": str(rng.choice(["subtomo_id", "subtomo_id", "tomo_id"])), "k3": bool(rng.random() < 0.3)}
             ops.append((op, arg))
-        yield (ci, n, tuple(o[0] for o in ops)), {"rows": _gen_list(rng, n), "ops": ops}
+        yield (ci, n, tuple(o[0] for o in ops)), {"rows": _gen_list(rng, n, big), "ops": ops}
 
 
 def _cmp(df, model_rows, what, ordered=True):
